@@ -679,19 +679,26 @@ func c16CLI(ctx *Ctx, schemas []c16Schema) {
 	type flagCase struct {
 		name string
 		cfg  genlab.Cfg
+		raw  []string // the command line as written (default: the long forms of cfg)
 	}
 	fcs := []flagCase{
-		{"defaults", genlab.Cfg{Package: "s"}},
-		{"extra-imports", genlab.Cfg{Package: "s", ExtraImports: true}},
-		{"only-models", genlab.Cfg{Package: "s", OnlyModels: true}},
-		{"min-sized-ints", genlab.Cfg{Package: "s", MinSizedInts: true}},
-		{"struct-name-from-title", genlab.Cfg{Package: "s", StructNameFromTitle: true}},
-		{"tags", genlab.Cfg{Package: "s", Tags: []string{"json", "custom"}}},
-		{"capitalization", genlab.Cfg{Package: "s", Caps: []string{"ID", "URL"}}},
-		{"resolve-extension", genlab.Cfg{Package: "s", ResolveExt: []string{".json"}}},
-		{"output", genlab.Cfg{Package: "s", Output: "out/dir/gen.go"}},
-		{"mappings", genlab.Cfg{Package: "s", Mappings: []genlab.Mapping{{ID: "https://example.com/schema", Package: "example.com/pkg/mapped", Output: "mapped/m.go", Root: "Mapped"}}}},
-		{"yaml-extension", genlab.Cfg{Package: "s", YAMLExt: []string{".json"}}},
+		{"defaults", genlab.Cfg{Package: "s"}, nil},
+		{"extra-imports", genlab.Cfg{Package: "s", ExtraImports: true}, nil},
+		{"only-models", genlab.Cfg{Package: "s", OnlyModels: true}, nil},
+		{"min-sized-ints", genlab.Cfg{Package: "s", MinSizedInts: true}, nil},
+		{"struct-name-from-title", genlab.Cfg{Package: "s", StructNameFromTitle: true}, nil},
+		{"tags", genlab.Cfg{Package: "s", Tags: []string{"json", "custom"}}, nil},
+		{"capitalization", genlab.Cfg{Package: "s", Caps: []string{"ID", "URL"}}, nil},
+		{"resolve-extension", genlab.Cfg{Package: "s", ResolveExt: []string{".json"}}, nil},
+		{"output", genlab.Cfg{Package: "s", Output: "out/dir/gen.go"}, nil},
+		{"mappings", genlab.Cfg{Package: "s", Mappings: []genlab.Mapping{{ID: "https://example.com/schema", Package: "example.com/pkg/mapped", Output: "mapped/m.go", Root: "Mapped"}}}, nil},
+		{"yaml-extension", genlab.Cfg{Package: "s", YAMLExt: []string{".json"}}, nil},
+		// the other spellings the command line documents: one-letter forms, --flag=value, list values joined by commas, a boolean written out
+		{"short-forms", genlab.Cfg{Package: "s", Output: "out/x.go", ExtraImports: true, StructNameFromTitle: true}, []string{"-p", "s", "-o", "out/x.go", "-e", "-t"}},
+		{"equals-forms", genlab.Cfg{Package: "s", Output: "out/y.go", OnlyModels: true}, []string{"--package=s", "--output=out/y.go", "--only-models=true"}},
+		{"comma-lists", genlab.Cfg{Package: "s", Caps: []string{"ID", "URL"}, Tags: []string{"json", "custom"}, ResolveExt: []string{".json", ".yaml"}},
+			[]string{"-p", "s", "--capitalization", "ID,URL", "--tags=json,custom", "--resolve-extension", ".json,.yaml"}},
+		{"flags-after-the-argument", genlab.Cfg{Package: "s", MinSizedInts: true}, []string{"ARG", "--package", "s", "--min-sized-ints"}},
 	}
 	var jobs []genlab.Job
 	type ck struct{ s, f int }
@@ -715,6 +722,19 @@ func c16CLI(ctx *Ctx, schemas []c16Schema) {
 		os.MkdirAll(d, 0o755)
 		genlab.Materialise(d, s.files())
 		args := append(fc.cfg.Flags(), "s.json")
+		if fc.raw != nil {
+			args = nil
+			sawArg := false
+			for _, a := range fc.raw {
+				if a == "ARG" {
+					a, sawArg = "s.json", true
+				}
+				args = append(args, a)
+			}
+			if !sawArg {
+				args = append(args, "s.json")
+			}
+		}
 		r := genlab.RunCLI(bin, d, args, "", 60*time.Second)
 		l := lib[k]
 		id := fmt.Sprintf("C16/cli/%s/%s", s.id, fc.name)
